@@ -68,6 +68,19 @@ def step (ts : List String) : String :=
           s!"err {e} {ss.length} {fSamples ss}"
       | _ => "bad-op"
     | _ => "bad-op"
+  | "hist" :: act :: nv :: rest =>
+    -- hist <active: -1 = all | i> <nv> v0 … <ops…>   ops: A | S i | U | P | X i b
+    let nv := pN nv
+    let vols := (rest.take nv).map pF
+    let rec ops : List String → List GridOp
+      | "A" :: t => .activeAll :: ops t
+      | "S" :: i :: t => .active (pN i) :: ops t
+      | "U" :: t => .unparentAll :: ops t
+      | "P" :: t => .parentAll :: ops t
+      | "X" :: i :: b :: t => .setParent (pN i) (b == "1") :: ops t
+      | _ => []
+    let g : Grid Float := Grid.mk' vols (if act == "-1" then none else some (pN act))
+    fFs (g.total :: g.trace (ops (rest.drop nv)))
   | _ => "bad-op"
 
 def main : IO UInt32 := do
